@@ -29,7 +29,8 @@ BACKENDS = {
     "cms_miniaod": ("func_adl_xAOD.cms.miniaod.local_dataset", "CMSRun2miniAODDataset", None, "Muons", []),
 }
 
-FILE_SHAPES = ["one-path", "one-str", "two-same-dir", "two-diff-dir", "missing-alone", "missing-second", "empty", "three-same-dir-order"]
+FILE_SHAPES = ["one-path", "one-str", "two-same-dir", "two-diff-dir", "missing-alone", "missing-second", "empty", "three-same-dir-order",
+               "nested-second", "nested-first", "nested-third", "parent-second"]
 BEHAVIOURS = [("ok", k, None) for k in (0, 1, 2)] + [("no-result", 1, None), ("fail-at-call", 0, None)] + \
              [("fail", k, i) for k in (0, 1, 2) for i in range(0, k + 1)] + \
              [("fail-wr", k, (i, w)) for k in (0, 1, 2) for i in range(0, k + 1) for w in range(0, i + 1)]   # result file written before chunk w, failure at i
@@ -66,9 +67,13 @@ def one_case(case):
         for n in ("a.root", "b.root", "c.root"):
             (d1 / n).write_text("x")
         (d2 / "z.root").write_text("x")
+        (d1 / "sub").mkdir()
+        (d1 / "sub" / "s.root").write_text("x")
         files = {
             "one-path": d1 / "a.root", "one-str": str(d1 / "a.root"), "two-same-dir": [d1 / "b.root", d1 / "a.root"],
             "two-diff-dir": [d1 / "a.root", d2 / "z.root"], "missing-alone": d1 / "nope.root", "missing-second": [d1 / "a.root", d1 / "nope.root"],
+            "nested-second": [d1 / "a.root", d1 / "sub" / "s.root"], "nested-first": [d1 / "sub" / "s.root", d1 / "a.root"],
+            "nested-third": [d1 / "a.root", d1 / "b.root", d1 / "sub" / "s.root"], "parent-second": [d1 / "sub" / "s.root", d1 / "sub" / ".." / "a.root"],
             "empty": [], "three-same-dir-order": [str(d1 / "c.root"), str(d1 / "a.root"), str(d1 / "b.root")],
         }[shape]
         outdir = None
@@ -162,7 +167,7 @@ def judge(case, o):
     probs = []
     kind, k, fail_i = beh
     cache = BACKENDS[backend][4]
-    bad_files = shape in ("missing-alone", "missing-second", "empty", "two-diff-dir")
+    bad_files = shape in ("missing-alone", "missing-second", "empty", "two-diff-dir", "nested-second", "nested-first", "nested-third", "parent-second")
     if len(case) > 7 and case[7] == "same-md" and o.get("prior_image") not in (None, "earlier/image:3"):
         probs.append(f"the earlier query's docker metadata was not honoured: ran {o.get('prior_image')!r}")
     if o.get("leftover_tempdirs"):
@@ -253,7 +258,7 @@ def main(tier="quick"):
                                     # the tempdir-state dimension only matters at construction; cross it with the rest on one behaviour
                                     if not tinit and beh != ("ok", 1, None):
                                         continue
-                                    if shape in ("missing-alone", "missing-second", "empty") and beh != ("ok", 1, None):
+                                    if shape in ("missing-alone", "missing-second", "empty", "nested-second", "nested-first", "nested-third", "parent-second") and beh != ("ok", 1, None):
                                         continue
                                 cases.append((backend, shape, image_mode, md_pos, outdir_mode, beh, tinit))
                                 # the same case after an earlier successful execution into the same output directory
